@@ -115,7 +115,7 @@ def handle (line : String) : String :=
     match i.toNat? >>= fun k => Gen.goFieldLiterals[k]? with
     | some l =>
       if fieldLiteralOk l then s!"ok {nameStr l.1}.{nameStr l.2.1}=={l.2.2.1}"
-      else s!"BAD Go compares {nameStr l.1}.{nameStr l.2.1} with the literal {l.2.2.1} at {l.2.2.2}: not the value of the C constant it mirrors; if this is a new comparison add `(n!\"{nameStr l.1}\", n!\"{nameStr l.2.1}\", n!\"<C constant it mirrors, or empty for a zero test>\")` to `fieldLiteralMeaning` (lean/DaeVerif/C19/Model.lean)"
+      else s!"BAD Go compares {nameStr l.1}.{nameStr l.2.1} with the literal {l.2.2.1} at {l.2.2.2.1}: not the value of the C constant it mirrors; if this is a new comparison add `(n!\"{nameStr l.1}\", n!\"{nameStr l.2.1}\", n!\"<C constant it mirrors, or empty for a zero test>\")` to `fieldLiteralMeaning` (lean/DaeVerif/C19/Model.lean)"
     | none => "none"
   | ["param", i] =>
     match i.toNat? >>= fun k => paramContents[k]? with
@@ -136,6 +136,25 @@ def handle (line : String) : String :=
       else s!"BAD Go type {nameStr t} is handed to cilium/ebpf but its encoding/binary layout does not agree with the C record (implicit padding): " ++
         " ; ".intercalate ((pairing.filter (fun p => nameEq p.go t)).flatMap (fun p => pairProblems Gen.cRecs Gen.goPacked p))
     | none => "none"
+  | ["dnsport", e] =>
+    match parseEndian? e with | some e => toString (goDnsPortConst e) | none => "bad-op"
+  | ["cbidcheck"] =>
+    if Gen.goCallbackIdShapes.any callbackShapeBad then
+      "BAD a call site of outboundAliveChangeCallback forms the outbound id as `uint8(len(outbounds))` plus/minus a constant: the group's health is published under another group's connectivity slot (the rules carry the index itself: outboundName2Id[o.Name] = uint8(i))"
+    else if !Gen.goCallbackIdShapes.any (nameEq · n!"index") then "BAD no call site of outboundAliveChangeCallback binds the group's index in `outbounds` any more (shapes: " ++ ",".intercalate (Gen.goCallbackIdShapes.map nameStr) ++ ")"
+    else "ok callback ids"
+  | ["mapiocover"] =>
+    let bad := Gen.goMapTags.filter (!mapIOCovers ·)
+    if bad.isEmpty then "ok every map with a Go handle has map-I/O rows"
+    else "BAD no map-I/O call site was found for " ++ ",".intercalate (bad.map nameStr) ++ ": the translator (translators/c19_go findMapIO) no longer follows how this map is reached (alias / helper), or the control plane stopped using it (then add it to mapsWithoutGoIO)"
+  | ["notes"] =>
+    let n1 := driftPairs.flatMap fun x => (constPairProblem x).map (fun m => "drift (not demanded equal by the property): " ++ m)
+    let n2 := driftLimits.filterMap fun x => if x.2 == some true then none else some ("drift: " ++ x.1)
+    let n3 := paramContentsByLocalName.filterMap fun x => if paramContentOk x then none else some s!"PARAM.{nameStr x.1}: initialiser no longer mentions the local {x.2.1.map nameStr} (renamed local or swapped initialiser: review)"
+    let n4 := if makefileGlueOk then [] else [s!"Makefile glue for MAX_MATCH_SET_LEN not recognised (default/-D/-X = {Gen.makefileMaxMatchSetLen.1}/{Gen.makefileMaxMatchSetLen.2.1}/{Gen.makefileMaxMatchSetLen.2.2})"]
+    let n5 := if Gen.goCallbackIdShapes.any (nameEq · n!"other") then ["a call site of outboundAliveChangeCallback forms the outbound id in a way the translator cannot classify"] else []
+    let all := n1 ++ n2 ++ n3 ++ n4 ++ n5
+    if all.isEmpty then "none" else " ;; ".intercalate all
   | ["progcheck"] =>
     let a := Gen.goProgAttach.filter (!progAttachOk ·)
     let u := Gen.goProgUses.filter (!progUseOk ·)
@@ -151,7 +170,7 @@ def handle (line : String) : String :=
       ++ t.map (fun x => s!"{nameStr x.1} creates ebpf.{nameStr x.2} maps but unused_lpm_type declares type {((findMap n!"unused_lpm_type" Gen.cMaps).map (·.mtype)).getD 0}"))
   | ["overridecheck"] =>
     if overrideConsistent then "ok MAX_MATCH_SET_LEN override"
-    else s!"BAD MAX_MATCH_SET_LEN: Makefile default/-D/-X = {Gen.makefileMaxMatchSetLen.1}/{Gen.makefileMaxMatchSetLen.2.1}/{Gen.makefileMaxMatchSetLen.2.2}, Go default {goC? n!"consts.MaxMatchSetLen"}, C default {cC? n!"MAX_MATCH_SET_LEN"}, C with -DMAX_MATCH_SET_LEN=2048 gives [N, bitmap words, routing_map, lpm_array_map, MAX_LPM_NUM] = {Gen.cOverride2048}"
+    else s!"BAD MAX_MATCH_SET_LEN: Go default {goC? n!"consts.MaxMatchSetLen"}, C default {cC? n!"MAX_MATCH_SET_LEN"}, C with -DMAX_MATCH_SET_LEN=2048 gives [N, bitmap words, routing_map, lpm_array_map, MAX_LPM_NUM] = {Gen.cOverride2048}"
   | ["widthcheck"] =>
     if specFits Gen.specData && enumStorageOk then "ok generated values fit their storage"
     else "BAD the checked-in spec has more than 256 match types or a value above 255, or match_set.type/outbound are no longer one byte wide on both sides"
